@@ -157,6 +157,12 @@ func (sesh *Session) OpenStream() (*Stream, error) {
 	}
 	stream := makeStream(sesh, id)
 	sesh.streamsM.Lock()
+	// closeSession sets the closed flag before it takes streamsM to close every registered stream:
+	// checking again under the lock means the stream is either refused or seen by closeSession
+	if sesh.IsClosed() {
+		sesh.streamsM.Unlock()
+		return nil, ErrBrokenSession
+	}
 	sesh.streams[id] = stream
 	sesh.streamsM.Unlock()
 	sesh.streamCountIncr()
